@@ -796,7 +796,7 @@ def run(chk):
         "distinct = by (shape, class word)")
     n = check_cases(chk, list(corpus_cases()), 'corpus')
     n += check_cases(chk, exhaustive_cases(4 if chk.quick else 5), 'exh')
-    nrand = 2500 if chk.quick else 8000
+    nrand = 2000 if chk.quick else 8000
     n += check_cases(chk, [random_case(chk.rng) for _ in range(nrand)],
                      'rnd')
     n += mp_runs(chk, 8 if chk.quick else 30)
